@@ -21,7 +21,11 @@ UI = {'none': ('', None), 'user': ('user@', None), 'userpw': ('user:pw@', ('user
       'long': ('u' * 30 + ':' + 'p' * 64 + '@', ('u' * 30, 'p' * 64))}
 HOST = {'plain': ('h1.test', 'h1', 'h1.test'), 'upper': ('H1.TEST', 'h1', 'h1.test'),
         'idn': ('bücher.test', 'hi', 'xn--bcher-kva.test'), 'ip4': ('10.0.1.2', 'h4', '10.0.1.2'),
-        'ip6': ('[::1]', 'h6', '[::1]'), 'ip6long': ('[0:0:0:0:0:0:0:1]', 'h6', '[::1]')}
+        'ip6': ('[::1]', 'h6', '[::1]'), 'ip6long': ('[0:0:0:0:0:0:0:1]', 'h6', '[::1]'),
+        # percent-escapes in the host are not decoded: such a URL is refused (if it were fetched, the escapes would have
+        # to stay escapes)
+        'pctcrlf': ('h1%0d%0aX-Evil:1.test', 'h1', 'h1%0d%0ax-evil:1.test'),
+        'pcttab': ('h1%09x.test', 'h1', 'h1%09x.test')}
 # 'xdef': an explicit port that is the default of ANOTHER scheme (must still be named in Host)
 PORT = {'none': ('', 'def'), 'default': (':80', 'def'), 'other': (':8080', 'alt'), 'padded': (':080', 'def'),
         'xdef': (':443', 'alt')}
@@ -49,7 +53,7 @@ def expect(c):
     if c['path'] == 'empty' and c['query'] != 'none':
         targets = ['/' + q for q in QUERY[c['query']][1]]
     return {'host': host[1], 'scheme': 'http', 'port': pc, 'targets': targets, 'authority': auth,
-            'absolutes': ['http://' + auth + targets[0]]}
+            'absolutes': ['http://' + auth + t for t in targets]}
 
 
 def expected_plain():
@@ -118,8 +122,8 @@ def run_one(sc):
             ev, outcome = [{'e': 'outcome', 'v': 'error', 'detail': 'rejected:' + str(e)[:80]}], 'rejected'
         exps = [exp]
     else:
-        status = 302 if use == 'loc302' else 307
-        script = {'start': plain, 'maxred': 3,
+        status = 302 if use.startswith('loc302') else 307
+        script = {'start': plain, 'maxred': 3, 'proxy': use.endswith('p'),
                   'steps': [{'status': status, 'loc': plain, 'loc_text': text}, {'status': 200}]}
         ev, outcome = X.run_script(script)
         from drivers.websession import expected
@@ -183,7 +187,9 @@ def run_text_cases(chk, quick):
     runs = []
     for c in cases:
         text = render(c)
-        for use in ('start', 'loc302', 'loc307', 'referer'):
+        for use in ('start', 'loc302', 'loc307', 'referer', 'loc302p', 'loc307p'):
+            if use.endswith('p') and (c['ui'] != 'none' or c['host'] not in ('plain', 'upper', 'pctcrlf', 'pcttab') or c['port'] == 'other'):
+                continue        # through a plain HTTP proxy (absolute-form target): URLs without user-info on the known host
             if use == 'referer' and (c['ui'] == 'none' or c['host'] != 'plain' or c['port'] == 'xdef'):
                 continue        # as a referring page: the URLs with user-info, on the ordinary host
             if use != 'start' and any(ord(ch) >= 128 for ch in text):
